@@ -350,11 +350,10 @@ theorem tainted_never_raw_no_unquote (x : Ext) (hx : Laws x) (sp : Spec) (s out 
       | some n => simpa [hnl] using hnull n hnl
     · rw [if_neg hn] at hr
       -- the fmt stage leaves a harmless string
-      have hv1 : ∀ v1, (match sp.fmt with
-            | some f => fmtStage x f (Val.str s true)
-            | none => some (Except.ok (Val.str s true))) = some (.ok v1) →
+      have hv1 : ∀ v1, fmtOpt x sp (Val.str s true) = some (.ok v1) →
           ∃ s' t', v1 = .str s' t' ∧ Safe (s', t') := by
         intro v1 hv
+        unfold fmtOpt at hv
         cases hf : sp.fmt with
         | none => rw [hf] at hv; simp only [Option.some.injEq, Except.ok.injEq] at hv
                   subst hv; exact ⟨_, _, rfl, Or.inl rfl⟩
@@ -376,7 +375,10 @@ theorem tainted_never_raw_no_unquote (x : Ext) (hx : Laws x) (sp : Spec) (s out 
             · simp only [Option.some.injEq, Except.ok.injEq, Prod.mk.injEq] at hc
               obtain ⟨rfl, rfl⟩ := hc; exact hS
             · split at hc
-              · cases hc
+              · split at hc
+                · rename_i heq; cases heq
+                · cases hc
+                · cases hc
               · cases hc
           simp only [Option.some.injEq] at hr
           unfold afterCfmt at hr
@@ -492,56 +494,59 @@ private theorem map_ok {o : Option (R Text)} {g : Text → Text} {r : Text}
       simp only [Option.map_some, Except.map, Option.some.injEq, Except.ok.injEq] at h
       exact ⟨r', rfl, h.symm⟩
 
+/-- does a %-format contain a `%s` directive (that will insert the value)? -/
+def consumes : Text → Bool
+  | '%' :: '%' :: t => consumes t
+  | '%' :: 's' :: _ => true
+  | _ :: t => consumes t
+  | [] => false
+
+private theorem consumes_cons_ne (c : Char) (t : Text) (h : c ≠ '%') : consumes (c :: t) = consumes t := by
+  conv => lhs; unfold consumes
+  split <;> simp_all
+
 private theorem pyFormat_keepLt (s : Text) (hs : '<' ∈ s) : ∀ (n : Nat) (f : Text), f.length ≤ n →
-    ∀ (used : Bool) (r : Text), pyFormatAux f (.str s true) used = some (.ok r) → used = false → '<' ∈ r := by
+    ∀ (r : Text), pyFormatAux f (.str s true) false = some (.ok r) → consumes f = true → '<' ∈ r := by
   intro n
   induction n with
   | zero =>
-    intro f hl used r h hu
+    intro f hl r h hc
     have : f = [] := List.eq_nil_of_length_eq_zero (by omega)
-    subst this; subst hu
-    simp [pyFormatAux] at h
+    subst this
+    simp [consumes] at hc
   | succ n ih =>
-    intro f hl used r h hu
-    subst hu
-    match f, hl, h with
-    | [], _, h => simp [pyFormatAux] at h
-    | '%' :: '%' :: t, hl, h =>
-      simp only [pyFormatAux] at h
-      obtain ⟨r', h1, rfl⟩ := map_ok h
-      exact List.mem_cons_of_mem _ (ih t (by simp at hl; omega) false r' h1 rfl)
-    | '%' :: 's' :: t, hl, h =>
-      simp only [pyFormatAux, Bool.false_eq_true, if_false] at h
-      obtain ⟨r', h1, rfl⟩ := map_ok h
-      exact List.mem_append_left _ (by simpa [ustr] using hs)
-    | '%' :: 'd' :: t, hl, h => simp [pyFormatAux] at h
-    | ['%'], hl, h => simp [pyFormatAux] at h
-    | '%' :: c :: t, hl, h =>
-      by_cases h1 : c = '%'
+    intro f hl r h hc
+    match f, hl, h, hc with
+    | [], _, _, hc => simp [consumes] at hc
+    | ['%'], _, h, _ => simp [pyFormatAux] at h
+    | '%' :: d :: t, hl, h, hc =>
+      by_cases h1 : d = '%'
       · subst h1
         simp only [pyFormatAux] at h
+        simp only [consumes] at hc
         obtain ⟨r', h1, rfl⟩ := map_ok h
-        exact List.mem_cons_of_mem _ (ih t (by simp at hl; omega) false r' h1 rfl)
-      by_cases h2 : c = 's'
+        exact List.mem_cons_of_mem _ (ih t (by simp at hl; omega) r' h1 hc)
+      by_cases h2 : d = 's'
       · subst h2
         simp only [pyFormatAux, Bool.false_eq_true, if_false] at h
         obtain ⟨r', h1, rfl⟩ := map_ok h
         exact List.mem_append_left _ (by simpa [ustr] using hs)
-      by_cases h3 : c = 'd'
+      by_cases h3 : d = 'd'
       · subst h3; simp [pyFormatAux] at h
       · unfold pyFormatAux at h
         split at h <;> first | (simp_all; done) | (rename_i hne heq; exact absurd (List.cons.inj heq).1.symm hne)
-    | c :: t, hl, h =>
-      by_cases hc : c = '%'
-      · subst hc
+    | c :: t, hl, h, hc =>
+      by_cases hcp : c = '%'
+      · subst hcp
         cases t with
         | nil => simp [pyFormatAux] at h
         | cons d t =>
           by_cases h1 : d = '%'
           · subst h1
             simp only [pyFormatAux] at h
+            simp only [consumes] at hc
             obtain ⟨r', h1, rfl⟩ := map_ok h
-            exact List.mem_cons_of_mem _ (ih t (by simp at hl; omega) false r' h1 rfl)
+            exact List.mem_cons_of_mem _ (ih t (by simp at hl; omega) r' h1 hc)
           by_cases h2 : d = 's'
           · subst h2
             simp only [pyFormatAux, Bool.false_eq_true, if_false] at h
@@ -556,15 +561,17 @@ private theorem pyFormat_keepLt (s : Text) (hs : '<' ∈ s) : ∀ (n : Nat) (f :
           conv => lhs; unfold pyFormatAux
           split <;> simp_all
         rw [this] at h
+        rw [consumes_cons_ne _ _ hcp] at hc
         obtain ⟨r', h1, rfl⟩ := map_ok h
-        exact List.mem_cons_of_mem _ (ih t (by simp at hl; omega) false r' h1 rfl)
+        exact List.mem_cons_of_mem _ (ih t (by simp at hl; omega) r' h1 hc)
 
 /-- `fmt=` values after which a tainted string is still marked: method formats,
-html-quote, sql-quote, url-unquote(-plus), comma-numeric and %-formats. -/
+html-quote, sql-quote, url-unquote(-plus), comma-numeric and %-formats that
+actually insert the value (contain a `%s`). -/
 def fmtKeepsMark (f : Text) : Bool :=
   strMethods.contains (String.ofList f) ||
   ["html-quote", "sql-quote", "url-unquote", "url-unquote-plus", "comma-numeric"].contains (String.ofList f) ||
-  (!Gen.specialFormats.contains (String.ofList f) && !f.isEmpty)
+  (!Gen.specialFormats.contains (String.ofList f) && !f.isEmpty && consumes f)
 
 private theorem fmtStage_marked (x : Ext) (hx : Laws x) (f s : Text) (v1 : Val) (hs : '<' ∈ s)
     (hk : fmtKeepsMark f = true)
@@ -613,7 +620,21 @@ private theorem fmtStage_marked (x : Ext) (hx : Laws x) (f s : Text) (v1 : Val) 
   · cases h
   · rename_i r hp
     simp only [Option.some.injEq, Except.ok.injEq] at h; subst h
-    exact ⟨_, _, rfl, rfl, pyFormat_keepLt s hs f.length f (Nat.le_refl _) false r hp rfl⟩
+    have hcons : consumes f = true := by
+      have hm' : strMethods.contains (String.ofList f) = false := by simpa using hm
+      have hsp' : Gen.specialFormats.contains (String.ofList f) = false := by simpa using hsp
+      unfold fmtKeepsMark at hk
+      rw [hm', hsp'] at hk
+      cases h5 : ["html-quote", "sql-quote", "url-unquote", "url-unquote-plus", "comma-numeric"].contains
+          (String.ofList f)
+      · rw [h5] at hk
+        simp only [Bool.false_or, Bool.not_false, Bool.true_and, Bool.and_eq_true] at hk
+        exact hk.2
+      · -- a name of that list is a special format
+        exfalso
+        simp only [List.contains_cons, List.contains_nil, Bool.or_false, Bool.or_eq_true, beq_iff_eq] at h5
+        rcases h5 with h5 | h5 | h5 | h5 | h5 <;> (rw [h5] at hsp'; revert hsp'; decide)
+    exact ⟨_, _, rfl, rfl, pyFormat_keepLt s hs f.length f (Nat.le_refl _) r hp hcons⟩
 
 /-- **Regime B: unquoting modifiers, no mark-dropping stage.**  A tainted
 string containing '<', rendered with any subset/order of the modifiers other
@@ -642,11 +663,10 @@ theorem tainted_never_raw_no_quoter (x : Ext) (hx : Laws x) (sp : Spec) (s out :
       | none => simp [hnl] at hn
       | some n => simpa [hnl] using hnull n hnl
     · rw [if_neg hn] at hr
-      have hv1 : ∀ v1, (match sp.fmt with
-            | some f => fmtStage x f (Val.str s true)
-            | none => some (Except.ok (Val.str s true))) = some (.ok v1) →
+      have hv1 : ∀ v1, fmtOpt x sp (Val.str s true) = some (.ok v1) →
           ∃ s' t', v1 = .str s' t' ∧ Marked (s', t') := by
         intro v1 hv
+        unfold fmtOpt at hv
         cases hf : sp.fmt with
         | none => rw [hf] at hv; simp only [Option.some.injEq, Except.ok.injEq] at hv
                   subst hv; exact ⟨_, _, rfl, rfl, hs⟩
@@ -667,7 +687,10 @@ theorem tainted_never_raw_no_quoter (x : Ext) (hx : Laws x) (sp : Spec) (s out :
             · simp only [Option.some.injEq, Except.ok.injEq, Prod.mk.injEq] at hc
               obtain ⟨rfl, rfl⟩ := hc; exact hS
             · split at hc
-              · cases hc
+              · split at hc
+                · rename_i heq; cases heq
+                · cases hc
+                · cases hc
               · cases hc
           simp only [Option.some.injEq] at hr
           unfold afterCfmt at hr
@@ -704,9 +727,9 @@ private theorem nde_aux (x : Ext) (s fq : Text)
   have a4 : applied { written := ["html_quote"], fmt := some fq } = ["html_quote"] := by
     simp (config := {decide := true}) [applied, Gen.modifiers]
   constructor
-  · simp [render, simpleKind, e0, renderFull, isNull, f1, afterFmt, cfmtStage, afterCfmt, a3, applyMods,
+  · simp [render, simpleKind, e0, renderFull, isNull, fmtOpt, f1, afterFmt, cfmtStage, afterCfmt, a3, applyMods,
       finishStage]
-  · simp [render, simpleKind, e1, renderFull, isNull, f1, afterFmt, cfmtStage, afterCfmt, a4, applyMods,
+  · simp [render, simpleKind, e1, renderFull, isNull, fmtOpt, f1, afterFmt, cfmtStage, afterCfmt, a4, applyMods,
       applyMod, finishStage]
 
 /-- **No double escaping.**  With html_quote requested — as the simple form, on
@@ -725,7 +748,7 @@ theorem no_double_escape (x : Ext) (s : Text) :
     simp (config := {decide := true}) [hasMethod, strMethods, Gen.specialFormats]
   refine ⟨?_, ?_, (nde_aux x s _ f1).1, (nde_aux x s _ f1).2⟩
   · simp [render, simpleKind, e1, VarPipe.renderSimple]
-  · simp [render, simpleKind, e1, renderFull, isNull, afterFmt, cfmtStage, afterCfmt, a2, applyMods,
+  · simp [render, simpleKind, e1, renderFull, isNull, fmtOpt, afterFmt, cfmtStage, afterCfmt, a2, applyMods,
       applyMod, finishStage]
 
 /-- The excluded combination is real (finding C04-requote), shown on the model
